@@ -1,6 +1,9 @@
 (* C10 — listing yields exactly the live entries, once each, agreeing with lookup.
-   Per bucket, for arbitrary record lists (hence arbitrary bucket bytes via [entries]). *)
-From CC Require Import Bytes Codec Utf8 Lines Json Sri Record BytesP LinesP LsP RecordP.
+   Per bucket, for arbitrary record lists (hence arbitrary bucket bytes via [entries]); and for the whole cache: the
+   listing program (walk of index-v5, every bucket read and reduced) returns exactly the entries that lookups find, for
+   every tree with a well-shaped index area in which every record sits in the bucket of its key (what the API produces;
+   a record planted by hand in a foreign bucket is listed but not found: outside the property's histories). *)
+From CC Require Import Bytes Codec Utf8 Lines Json Sri Record Fs Prog Api BytesP CodecP LinesP LsP FsP ProgP SriP RecordP IndexP ReadP WriteP CommitP RemoveP LsWholeP.
 
 Section C10.
 Variable hash : algo -> bytes -> bytes.
@@ -21,7 +24,31 @@ Proof. exact (ls_keys_nodup es). Qed.
 Theorem C10_bucket_bytes f m : In m (ls_bytes hash f) <-> find_bytes hash (m_key m) f = Some m.
 Proof. exact (ls_iff_find (entries hash f) m). Qed.
 
+(* the whole cache *)
+Theorem C10_ls_whole f :
+  NoDupKeys f -> IndexInv f -> NoDeep f -> BucketPlacement hash f -> is_dir f [index_dir] = true ->
+  exists items, run (ls hash) f = (Ok items, f) /\
+    (forall it, In it items -> exists m, it = LMeta m) /\
+    (forall m, In (LMeta m) items <-> abs_idx hash f (m_key m) = Some m).
+Proof. exact (ls_whole hash f). Qed.
+
+Theorem C10_ls_fresh f : is_dir f [index_dir] = false -> run (ls hash) f = (Ok [LErr EIoErr], f).
+Proof. exact (ls_fresh hash f). Qed.
+
 End C10.
+
+(* non-vacuity: three writes and a removal over two keys; the listing is exactly the one live entry *)
+Definition toy_hash (a : algo) (d : bytes) : bytes :=
+  [n2b (N.modulo (lenN d) 251); n2b (N.modulo (fold_left (fun acc b => acc * 31 + b2n b)%N d 7%N) 256); x01].
+Example C10_example :
+  let f := snd (run (delete toy_hash (bs "a") 4%N)
+            (snd (run (write toy_hash Sync Sha256 (bs "b") (bs "y") 3%N)
+              (snd (run (write toy_hash Sync Sha256 (bs "a") (bs "x2") 2%N)
+                (snd (run (write toy_hash Sync Sha256 (bs "a") (bs "x") 1%N) []))))))) in
+  match fst (run (ls toy_hash) f) with
+  | Ok [LMeta m] => bytes_eqb (m_key m) (bs "b") && N.eqb (m_size m) 1
+  | _ => false end = true /\ is_dir f [index_dir] = true.
+Proof. vm_compute. split; reflexivity. Qed.
 
 Check (C10_ls_iff_find : forall es m, In m (ls_entries es) <-> find_in (m_key m) es = Some m).
 Check (C10_ls_keys_nodup : forall es, NoDup (map m_key (ls_entries es))).
@@ -30,3 +57,5 @@ Print Assumptions C10_ls_iff_find.
 Print Assumptions C10_find_listed.
 Print Assumptions C10_ls_keys_nodup.
 Print Assumptions C10_bucket_bytes.
+Print Assumptions C10_ls_whole.
+Print Assumptions C10_ls_fresh.
